@@ -67,6 +67,8 @@ pub enum Op {
     ConsumeSync,
     /// create the join future, drop the owning address (a clone of the plain address is kept), stop, await the future
     LazyJoinThenDrop,
+    /// create a join future, poll it once, drop it (the losing arm of a select): the actor lives on
+    JoinPollDrop,
     Await,
     Restart,
     /// register an interval (kind 0) / interval_with (kind 1) that stops the actor after k ticks, then await the end
@@ -544,6 +546,18 @@ async fn run_program(p: &Program) -> Record {
                 }
                 None => "skip".into(),
             },
+            Op::JoinPollDrop => match live.owning.as_mut() {
+                Some(o) => {
+                    let mut f = o.join();
+                    let polled = futures::poll!(&mut f).is_ready();
+                    drop(f);
+                    let a = o.to_addr();
+                    hannibal::runtime::sleep(Duration::from_millis(2)).await;
+                    let alive = g!(a.call(Get));
+                    format!("{polled}/{alive}")
+                }
+                None => "skip".into(),
+            },
             Op::LazyJoinThenDrop => match live.owning.take() {
                 Some(mut o) => {
                     ended = true;
@@ -775,6 +789,7 @@ mod generate {
             1 => Just(Op::Consume),
             2 => Just(Op::ConsumeSync),
             2 => Just(Op::LazyJoinThenDrop),
+            2 => Just(Op::JoinPollDrop),
             1 => Just(Op::Await),
             2 => Just(Op::Restart),
             2 => (any::<bool>(), 1u8..4, 1u8..4).prop_map(|(with, k, period_ms)| Op::TicksThenStop { with, k, period_ms }),
